@@ -14,6 +14,22 @@ func vsBumpOut(a [65536]uint8, p, v uint8) [65536]uint8 {
 }
 func vsStore(a [65536]uint8, i uint16, v uint8) [65536]uint8 { a[i] = v; return a }
 
+// ordered access log (sequence-sensitive; see VGhost.Log)
+func vsRdCode(a uint16) uint32         { return 1<<24 | uint32(a)<<8 }
+func vsWrCode(a uint16, v uint8) uint32 { return 2<<24 | uint32(a)<<8 | uint32(v) }
+func vsInCode(p uint8) uint32          { return 3<<24 | uint32(p)<<8 }
+func vsOutCode(p, v uint8) uint32      { return 4<<24 | uint32(p)<<8 | uint32(v) }
+func vsLogged(log [256]uint32, n uint8, code uint32) [256]uint32 {
+	log[n] = code
+	return log
+}
+func vsIteLog(c bool, a, b [256]uint32) [256]uint32 {
+	if c {
+		return a
+	}
+	return b
+}
+
 func vsIteU8(c bool, a, b uint8) uint8 {
 	if c {
 		return a
@@ -53,17 +69,31 @@ func vsGhostMem(m Memory) bool {
 
 type VsRecMem struct{ G *VGhost }
 
-func (m *VsRecMem) Get(a uint16) uint8 { m.G.Rd[a]++; return m.G.Mem[a] }
+func (m *VsRecMem) Get(a uint16) uint8 {
+	m.G.Rd[a]++
+	m.G.Log[m.G.LogN] = vsRdCode(a)
+	m.G.LogN++
+	return m.G.Mem[a]
+}
 func (m *VsRecMem) Set(a uint16, v uint8) {
 	m.G.Wr[uint32(a)<<8|uint32(v)]++
+	m.G.Log[m.G.LogN] = vsWrCode(a, v)
+	m.G.LogN++
 	m.G.Mem[a] = v
 }
 
 type VsRecIO struct{ G *VGhost }
 
-func (io *VsRecIO) In(p uint8) uint8 { io.G.PIn[p]++; return io.G.InVal[p] }
+func (io *VsRecIO) In(p uint8) uint8 {
+	io.G.PIn[p]++
+	io.G.Log[io.G.LogN] = vsInCode(p)
+	io.G.LogN++
+	return io.G.InVal[p]
+}
 func (io *VsRecIO) Out(p uint8, v uint8) {
 	io.G.POut[uint16(p)<<8|uint16(v)]++
+	io.G.Log[io.G.LogN] = vsOutCode(p, v)
+	io.G.LogN++
 }
 
 type VsRecHandler struct{ G *VGhost }
